@@ -172,12 +172,16 @@ def find_function_node(tree, qualname):
         if found is None:
             raise Unsupported(f"function {qualname} not found in source")
         node = found
+    if isinstance(node, ast.ClassDef):
+        for child in node.body:
+            if isinstance(child, ast.FunctionDef) and child.name == "__init__":
+                return child
     if not isinstance(node, ast.FunctionDef):
         raise Unsupported(f"{qualname} is not a function")
     return node
 
 
-DROP_CALL_RECEIVERS = ("logger", "traceback")
+DROP_CALL_RECEIVERS = ("logger", "traceback", "_logger")
 
 # two-line wrappers around the pint registry that are always executed in place (their body is the real source)
 DEFAULT_INLINE = {"geophires_x/Parameter.py::HasQuantity.quantity", "geophires_x/GeoPHIRESUtils.py::quantity",
@@ -516,6 +520,12 @@ class Executor:
             self.unsupported(node, f"attribute {attr} of exception value")
         if isinstance(base, (FuncVal, BoundMethod)):
             self.unsupported(node, f"attribute {attr} of function value")
+        if base is sys and attr == "argv":
+            # process-global state is part of the symbolic state (frame contracts of the entry points, C08/C20)
+            key = ("glob", "sys.argv")
+            if key not in st.heap:
+                st.heap[key] = Opaque("sys.argv@entry")
+            return st.heap[key]
         # concrete python object (module, class, enum, str, dict, real library object ...)
         try:
             v = getattr(base, attr)
@@ -1215,6 +1225,9 @@ class Executor:
         else:
             pyf = fv
             bound = None
+            h0 = intr.lookup_intrinsic(pyf)
+            if h0 is not None:
+                return [Outcome("return", st, h0(self, st, list(args), kwargs, node))]
             if isinstance(pyf, types.MethodType):
                 bound = self.wrap(pyf.__self__)
                 pyf = pyf.__func__
@@ -1253,6 +1266,13 @@ class Executor:
                 return contract.apply_at_call(self, st, a2, kwargs, node)
             self.unsupported(node, f"call to repository function without contract or inline mark: {key}")
         if isinstance(pyf, type) and is_repo_callable(pyf):
+            mod = sys.modules.get(pyf.__module__)
+            rel = os.path.relpath(getattr(mod, "__file__", "?"), self.ctx.repo_src)
+            ckey = f"{rel}::{pyf.__qualname__}"
+            contract = self.ctx.registry.get(ckey) if self.ctx.registry else None
+            if contract is not None:
+                self.ctx.stats["calls_by_contract"] += 1
+                return contract.apply_at_call(self, st, list(args), kwargs, node)
             self.unsupported(node, f"construction of repository object {pyf.__name__}")
         # pure library call on concrete arguments
         if callable(pyf) and intr.all_concrete(args) and intr.all_concrete(kwargs.values()):
@@ -1618,6 +1638,10 @@ class Executor:
             return
         if isinstance(t, ast.Attribute):
             base = self.ev(t.value, st)
+            if base is sys and t.attr == "argv":
+                st.heap[("glob", "sys.argv")] = v
+                st.effects.append(("sys.argv", "write"))
+                return
             if not isinstance(base, Ref):
                 self.unsupported(t, f"attribute assignment on {type(base).__name__}")
             self.write_attr(st, base, t.attr, v)
